@@ -9,6 +9,7 @@ import (
 	"math/rand"
 
 	multiproof "github.com/crate-crypto/go-ipa"
+	"github.com/crate-crypto/go-ipa/bandersnatch"
 	"github.com/crate-crypto/go-ipa/bandersnatch/fp"
 	"github.com/crate-crypto/go-ipa/bandersnatch/fr"
 	"github.com/crate-crypto/go-ipa/banderwagon"
@@ -43,10 +44,11 @@ const (
 	opVerifyMalformed
 	opProofIO
 	opSharedInputs
+	opCurveAPI
 	numOpKinds
 )
 
-var opNames = []string{"Commit", "CreateMultiProof", "CheckMultiProof", "Create+CheckIPAProof", "MultiScalar/MultiExp", "element-ops", "batch-helpers", "transcript", "fr-bigint-pool", "point-codec", "fp-sqrt", "parallel.Execute", "GenerateRandomPoints", "NewIPASettings", "CheckMultiProof(malformed)", "proof-read-write-reuse", "shared-read-only-inputs"}
+var opNames = []string{"Commit", "CreateMultiProof", "CheckMultiProof", "Create+CheckIPAProof", "MultiScalar/MultiExp", "element-ops", "batch-helpers", "transcript", "fr-bigint-pool", "point-codec", "fp-sqrt", "parallel.Execute", "GenerateRandomPoints", "NewIPASettings", "CheckMultiProof(malformed)", "proof-read-write-reuse", "shared-read-only-inputs", "curve-level-api"}
 
 type opCtx struct {
 	env    *Env
@@ -724,6 +726,42 @@ func (o *opCtx) exec(kind, k int) string {
 			o.modified("input-modified/IPAProof.Read/earlier-copy", "reading a second proof into an IPAProof changed a copy made before the call")
 		}
 		d.add(w4.Bytes())
+	case opCurveAPI:
+		// the lower-level curve functions, on edge and random inputs, with results scribbled on
+		for _, xv := range []*big.Int{new(big.Int), big.NewInt(1), new(big.Int).Sub(ref.P, bigOne), o.base.P[rng.Intn(len(o.base.P))].X, randBig(rng, ref.P)} {
+			for _, largest := range []bool{true, false} {
+				xe := FpFromBig(xv)
+				p := bandersnatch.GetPointFromX(&xe, largest)
+				if p == nil {
+					d.addf("nil")
+					continue
+				}
+				xb, yb := p.X.Bytes(), p.Y.Bytes()
+				d.add(xb[:])
+				d.add(yb[:])
+				p.X.SetUint64(5)
+				p.Y.SetUint64(6)
+			}
+		}
+		var z fp.Element
+		if r0 := fp.SqrtPrecomp(&z); r0 != nil {
+			b := r0.Bytes()
+			d.add(b[:])
+			r0.SetUint64(9)
+		}
+		pp := bandersnatch.PointProj{X: FpFromBig(o.base.P[0].X), Y: FpFromBig(o.base.P[0].Y), Z: FpFromBig(bigOne)}
+		ext := bandersnatch.PointExtendedFromProj(&pp)
+		tb := ext.T.Bytes()
+		d.add(tb[:])
+		var wbuf bytes.Buffer
+		aff := bandersnatch.PointAffine{X: pp.X, Y: pp.Y}
+		nw, err := bandersnatch.WriteUncompressedPoint(&wbuf, &aff)
+		d.addf("%d %v", nw, err != nil)
+		back, err := bandersnatch.ReadUncompressedPoint(bytes.NewReader(wbuf.Bytes()))
+		d.addf("%v %v", err != nil, back.X == aff.X && back.Y == aff.Y)
+		id := bandersnatch.Identity
+		idb := id.Y.Bytes()
+		d.add(idb[:])
 	case opSharedInputs:
 		// APIs that only READ their arguments are called on objects shared by all goroutines
 		tr := common.NewTranscript("shared")
